@@ -850,3 +850,428 @@ Proof.
       * apply (in_map r_id) in Hx. rewrite P3 in Hx. apply repeat_spec in Hx. lia.
       * rewrite (D d x Hx). lia.
 Qed.
+
+(* the model's columns satisfy the C02 specification *)
+Lemma blocks_spec : forall custom names results ce cn ci blks id,
+  length ce = length cn -> length cn = length ci ->
+  zip3 ce cn ci = concat blks ->
+  Forall2 (block_ok custom names) results blks ->
+  (forall d x, In x (nth d blks []) -> r_id x = id + d) ->
+  Spec_C02 custom names results ce cn ci.
+Proof.
+  intros. split; [assumption|]. split; [assumption|]. exists blks. split; [assumption|]. split; [assumption|].
+  eapply DistinctIds_offset; eauto.
+Qed.
+
+(* consequence of the specification: the rows sharing the motif id of a row are exactly the
+   block (= the edges one callback returned for one motif instance) that row belongs to *)
+Lemma filter_id_block : forall blks a x,
+  DistinctIds blks ->
+  (forall b u w, In u (nth b blks []) -> In w (nth b blks []) -> r_id u = r_id w) ->
+  In x (nth a blks []) ->
+  filter (fun y => r_id y =? r_id x) (concat blks) = nth a blks [].
+Proof.
+  induction blks as [|blk rest IH]; intros a x D SM Hx.
+  - destruct a; contradiction.
+  - cbn [concat]. rewrite filter_app. destruct a as [|a]; cbn [nth] in *.
+    + rewrite filter_all, filter_none; [apply app_nil_r| |].
+      * intros y Hy. apply in_concat in Hy. destruct Hy as [b [Hb Hy]].
+        apply In_nth with (d := []) in Hb. destruct Hb as [n [Hn <-]].
+        apply Nat.eqb_neq. apply (D (S n) 0 y x); [lia|exact Hy|exact Hx].
+      * intros y Hy. apply Nat.eqb_eq. apply (SM 0 y x Hy Hx).
+    + rewrite filter_none; [cbn [app]; apply IH|].
+      * intros b c u w Hbc Hu Hw. apply (D (S b) (S c) u w); [lia|exact Hu|exact Hw].
+      * intros b u w Hu Hw. apply (SM (S b) u w Hu Hw).
+      * exact Hx.
+      * intros y Hy. apply Nat.eqb_neq. apply (D 0 (S a) y x); [lia|exact Hy|exact Hx].
+Qed.
+
+Theorem spec_c02_ids : forall custom names results ce cn ci,
+  Spec_C02 custom names results ce cn ci ->
+  exists blks, zip3 ce cn ci = concat blks /\ Forall2 (block_ok custom names) results blks /\
+    forall a x, In x (nth a blks []) ->
+      filter (fun y => r_id y =? r_id x) (zip3 ce cn ci) = nth a blks [].
+Proof.
+  intros custom names results ce cn ci [_ [_ [blks [Z [F D]]]]].
+  exists blks. split; [exact Z|]. split; [exact F|].
+  intros a x Hx. rewrite Z. apply filter_id_block; [exact D| |exact Hx].
+  intros b u w Hu Hw.
+  assert (Hb : b < length blks) by (eapply in_nth_nil; eauto).
+  rewrite <- (Forall2_len _ _ _ _ _ F) in Hb.
+  pose proof (Forall2_nth _ _ _ _ _ (0, Edges []) [] b F Hb) as [_ [_ Hs]]. now apply Hs.
+Qed.
+
+(* ------------------------------------------------------------------ c02 checker soundness *)
+Lemma pair_eqb_eq : forall a b, pair_eqb a b = true <-> a = b.
+Proof.
+  intros [a1 a2] [b1 b2]. unfold pair_eqb. cbn. rewrite andb_true_iff, !Nat.eqb_eq.
+  split; [intros [-> ->]; reflexivity|intros H; inversion H; now split].
+Qed.
+
+Lemma pairs_eqb_eq : forall a b, pairs_eqb a b = true <-> a = b.
+Proof.
+  induction a as [|x a IH]; destruct b as [|y b]; cbn; split; intro H; try reflexivity; try discriminate.
+  - apply andb_true_iff in H. destruct H as [H1 H2]. apply pair_eqb_eq in H1. apply IH in H2. congruence.
+  - inversion H; subst. apply andb_true_iff. split; [now apply pair_eqb_eq|now apply IH].
+Qed.
+
+Lemma blocks_okb_sound : forall custom names results rows seen,
+  blocks_okb custom names results rows seen = true ->
+  exists blks, rows = concat blks /\ Forall2 (block_ok custom names) results blks /\
+    DistinctIds blks /\ (forall b x, In x (nth b blks []) -> ~ In (r_id x) seen).
+Proof.
+  intros custom names results. induction results as [|[j sh] rest IH]; intros rows seen H.
+  - cbn in H. destruct rows; [|discriminate]. exists []. split; [reflexivity|]. split; [constructor|].
+    split; intros a; intros; destruct a; contradiction.
+  - cbn [blocks_okb] in H. cbv zeta in H.
+    set (n := length (edges_of sh)) in *. set (blk := firstn n rows) in *.
+    apply andb_true_iff in H. destruct H as [H H3]. apply andb_true_iff in H. destruct H as [H1 H2].
+    apply pairs_eqb_eq in H1. apply list_eqb_eq in H2.
+    assert (Erows : rows = blk ++ skipn n rows) by (symmetry; apply firstn_skipn).
+    destruct blk as [|r blk'] eqn:Eblk.
+    + destruct (IH _ _ H3) as [blks [E [F [D SN]]]].
+      exists ([] :: blks). split; [cbn in Erows |- *; congruence|]. split.
+      { constructor; [|exact F]. split; [exact H1|]. split; [exact H2|]. intros x y []. }
+      split.
+      * intros a b x y Hab Hx Hy. destruct a as [|a]; [contradiction|]. destruct b as [|b]; [contradiction|].
+        apply (D a b x y); [lia|exact Hx|exact Hy].
+      * intros b x Hx. destruct b as [|b]; [contradiction|]. now apply (SN b).
+    + apply andb_true_iff in H3. destruct H3 as [H3 H5]. apply andb_true_iff in H3. destruct H3 as [H3 H4].
+      rewrite forallb_forall in H3. apply negb_true_iff in H4.
+      destruct (IH _ _ H5) as [blks [E [F [D SN]]]].
+      assert (Hid : forall x, In x (r :: blk') -> r_id x = r_id r).
+      { intros x Hx. now apply Nat.eqb_eq, H3. }
+      exists ((r :: blk') :: blks). split; [cbn [concat]; congruence|]. split.
+      { constructor; [|exact F]. split; [exact H1|]. split; [exact H2|].
+        intros x y Hx Hy. now rewrite (Hid x Hx), (Hid y Hy). }
+      split.
+      * intros a b x y Hab Hx Hy. destruct a as [|a]; destruct b as [|b]; cbn [nth] in *; try lia.
+        -- rewrite (Hid x Hx). intro Heq. apply (SN b y Hy). left. congruence.
+        -- rewrite (Hid y Hy). intro Heq. apply (SN a x Hx). left. congruence.
+        -- apply (D a b x y); [lia|exact Hx|exact Hy].
+      * intros b x Hx. destruct b as [|b]; cbn [nth] in Hx.
+        -- rewrite (Hid x Hx). intro Hin. apply memb_In in Hin. congruence.
+        -- intro Hin. apply (SN b x Hx). now right.
+Qed.
+
+(* "every edge entry is a pair of vertex ids" on the raw column *)
+Definition IsPairTree (t : tree) : Prop :=
+  exists a b : nat, t = L [I (Z.of_nat a); I (Z.of_nat b)].
+
+Lemma is_pair_tree_sound : forall t, is_pair_tree t = true -> IsPairTree t.
+Proof.
+  intros t H. destruct t as [z|l]; [discriminate|].
+  destruct l as [|[a|] [|[b|] [|]]]; try discriminate.
+  cbn in H. apply andb_true_iff in H. destruct H as [Ha Hb].
+  apply Z.leb_le in Ha, Hb. exists (Z.to_nat a), (Z.to_nat b). now rewrite !Z2Nat.id.
+Qed.
+
+Theorem c02_okb_sound : forall custom names results ce_raw cn ci,
+  c02_okb custom names results ce_raw cn ci = true ->
+  Forall IsPairTree ce_raw /\ Spec_C02 custom names results (map t_pair ce_raw) cn ci.
+Proof.
+  intros custom names results ce_raw cn ci H. unfold c02_okb in H.
+  apply andb_true_iff in H. destruct H as [H H4]. apply andb_true_iff in H. destruct H as [H H3].
+  apply andb_true_iff in H. destruct H as [H1 H2]. apply Nat.eqb_eq in H1, H2.
+  split.
+  - apply Forall_forall. intros t Ht. rewrite forallb_forall in H3. now apply is_pair_tree_sound, H3.
+  - destruct (blocks_okb_sound _ _ _ _ _ H4) as [blks [E [F [D _]]]].
+    split; [now rewrite map_length|]. split; [exact H2|]. exists blks. now repeat split.
+Qed.
+
+(* ------------------------------------------------------------------ callbacks only use the vertices they are given *)
+Lemma endpoints_incl : forall es g,
+  (forall a b, In (a, b) es -> In a g /\ In b g) -> incl (endpoints es) g.
+Proof.
+  intros es g H v Hv. unfold endpoints in Hv. apply in_flat_map in Hv.
+  destruct Hv as [[a b] [He Hv]]. destruct (H a b He) as [Ha Hb].
+  cbn in Hv. destruct Hv as [<-|[<-|[]]]; assumption.
+Qed.
+
+Lemma combos2_in : forall l a b, In (a, b) (combos2 l) -> In a l /\ In b l.
+Proof.
+  induction l as [|x t IH]; intros a b H; cbn in H; [contradiction|].
+  apply in_app_or in H. destruct H as [H|H].
+  - apply in_map_iff in H. destruct H as [y [E Hy]]. inversion E; subst. split; [now left|now right].
+  - destruct (IH a b H). split; now right.
+Qed.
+
+Lemma last_in' : forall (l : list nat) d, l <> [] -> In (last l d) l.
+Proof.
+  induction l as [|y t IH]; intros d H; [congruence|].
+  destruct t as [|z t']; [now left|]. right. apply (IH d). discriminate.
+Qed.
+
+Lemma clique_closed : forall l sh, clique_motif l = Ok sh -> incl (endpoints (edges_of sh)) l.
+Proof. intros l sh H. inversion H; subst. apply endpoints_incl. apply combos2_in. Qed.
+
+Lemma cycle_closed : forall l sh, cycle_motif l = Ok sh -> incl (endpoints (edges_of sh)) l.
+Proof.
+  intros l sh H. destruct l as [|x t]; [discriminate|].
+  assert (E : sh = Edges (combine (x :: t) t ++ [(x, last (x :: t) x)]))
+    by (unfold cycle_motif, cycle_edges in H; congruence).
+  subst sh. cbn [edges_of]. apply endpoints_incl. intros a b Hab.
+  apply in_app_or in Hab. destruct Hab as [Hab|Hab].
+  - split; [exact (in_combine_l (x :: t) t a b Hab)|right; exact (in_combine_r (x :: t) t a b Hab)].
+  - destruct Hab as [E|[]]. injection E as <- <-. split; [now left|].
+    exact (last_in' (x :: t) x ltac:(discriminate)).
+Qed.
+
+Lemma diamond_closed : forall l sh, diamond_motif l = Ok sh -> incl (endpoints (edges_of sh)) l.
+Proof.
+  intros l sh H. unfold diamond_motif in H.
+  destruct l as [|a [|b [|c [|d [|e t]]]]]; cbn in H; try discriminate.
+  inversion H; subst. intros v Hv. cbn in Hv. cbn. intuition.
+Qed.
+
+Lemma builder_closed : forall c l sh, builder_of_code c l = Ok sh -> incl (endpoints (edges_of sh)) l.
+Proof.
+  intros c l sh H. unfold builder_of_code in H.
+  destruct c as [|[|[|[|[|[|[|[|c]]]]]]]].
+  - now apply clique_closed.
+  - now apply cycle_closed.
+  - now apply diamond_closed.
+  - unfold bare_motif in H. destruct l as [|a [|b t]]; inversion H; subst.
+    intros v Hv. cbn in Hv. cbn. intuition.
+  - unfold path2_motif in H. destruct l as [|a [|b [|c t]]]; inversion H; subst.
+    intros v Hv. cbn in Hv. cbn. intuition.
+  - unfold star_motif in H. destruct l as [|x t]; inversion H; subst; [intros v []|].
+    apply endpoints_incl. intros a b Hab. apply in_map_iff in Hab. destruct Hab as [y [E Hy]].
+    inversion E; subst. split; [now left|now right].
+  - inversion H; subst. intros v [].
+  - unfold path2_motif in H. destruct l as [|a [|b [|c' t]]]; inversion H; subst.
+    intros v Hv. cbn in Hv. cbn. intuition.
+  - discriminate.
+Qed.
+
+Theorem build_of_codes_closed : forall codes, BuildClosed (build_of_codes codes).
+Proof.
+  intros codes j g sh H. unfold build_of_codes in H.
+  destruct (nth_error codes j); [|discriminate]. now apply builder_closed in H.
+Qed.
+
+(* ------------------------------------------------------------------ vertices in range *)
+Lemma structured_args_lt : forall sizes mis jds cs,
+  Structured sizes mis jds cs ->
+  forall c v, In c cs -> In v (concat (snd c)) -> v < length jds.
+Proof.
+  intros sizes mis jds cs [S1 [_ S3]] c v Hc Hv.
+  destruct (S1 c Hc) as [Hj HF].
+  apply in_concat in Hv. destruct Hv as [seg [Hseg Hv]].
+  apply In_nth with (d := []) in Hseg. destruct Hseg as [p [Hp Ep]].
+  rewrite <- (Forall2_len _ _ _ _ _ HF) in Hp.
+  apply (stubs_lt jds (nth p (nth (fst c) mis []) 0)).
+  eapply Permutation_in; [apply (S3 (fst c) p Hj Hp)|].
+  apply in_concat. exists seg. split; [|exact Hv].
+  rewrite <- Ep. apply (in_map (fun c0 : ccall => nth p (snd c0) [])).
+  apply filter_In. split; [exact Hc|apply Nat.eqb_refl].
+Qed.
+
+Lemma results_verts : forall build cs results N,
+  Results build cs results -> BuildClosed build ->
+  (forall c v, In c cs -> In v (concat (snd c)) -> v < N) ->
+  Forall (fun v => v < N) (endpoints (concat (map (fun r => edges_of (snd r)) results))).
+Proof.
+  intros build cs results N R BC. induction R as [|c r cs results [_ Hb] R IH]; intros H.
+  - constructor.
+  - cbn [map concat]. rewrite endpoints_app. apply Forall_app. split.
+    + apply Forall_forall. intros v Hv. apply (H c v (or_introl eq_refl)).
+      now apply (BC _ _ _ Hb).
+    + apply IH. intros c' v Hc'. apply H. now right.
+Qed.
+
+(* ------------------------------------------------------------------ whole runs *)
+Lemma gen_fast_inv : forall build sizes nms jds pis cs cols,
+  gen_fast build sizes nms jds pis = Ok (cs, cols) ->
+  cs = fst (plan_fast sizes jds pis) /\ snd (plan_fast sizes jds pis) = None /\
+  emit_fast build nms 0 cs = Ok cols.
+Proof.
+  intros build sizes nms jds pis cs cols H. unfold gen_fast in H.
+  destruct (plan_fast sizes jds pis) as [cs0 e]. unfold finish in H.
+  destruct (emit_fast build nms 0 cs0) as [c|] eqn:E; [|discriminate].
+  destruct e; [discriminate|]. inversion H; subst. auto.
+Qed.
+
+Lemma gen_custom_inv : forall build sizes names mis jds pis cs cols,
+  gen_custom build sizes names mis jds pis = Ok (cs, cols) ->
+  cs = fst (plan_custom sizes mis jds pis) /\ snd (plan_custom sizes mis jds pis) = None /\
+  emit_custom build names 0 cs = Ok cols.
+Proof.
+  intros build sizes names mis jds pis cs cols H. unfold gen_custom in H.
+  destruct (plan_custom sizes mis jds pis) as [cs0 e]. unfold finish in H.
+  destruct (emit_custom build names 0 cs0) as [c|] eqn:E; [|discriminate].
+  destruct e; [discriminate|]. inversion H; subst. auto.
+Qed.
+
+Lemma names_wrap : forall nms : list nat, map (hd 0) (map (fun x => [x]) nms) = nms.
+Proof. intros. rewrite map_map. cbn. apply map_id. Qed.
+
+(* C01 for the fast (and network) generator *)
+Theorem gen_fast_C01 : forall build sizes nms jds pis cs ce cn ci,
+  Valid sizes (singleton_mis (ncols jds)) jds -> PisOk jds pis -> BuildClosed build ->
+  gen_fast build sizes nms jds pis = Ok (cs, (ce, cn, ci)) ->
+  Spec_C01 sizes (singleton_mis (ncols jds)) jds (map flat_call cs) jds (endpoints ce).
+Proof.
+  intros build sizes nms jds pis cs ce cn ci V HP BC H.
+  destruct (gen_fast_inv _ _ _ _ _ _ _ H) as [-> [_ E]].
+  destruct (plan_fast_structured sizes jds pis V HP) as [_ ST].
+  rewrite <- (names_wrap nms) in E.
+  destruct (emit_fast_blocks _ _ _ _ _ _ _ E) as [_ [_ [results [blks [R [Ece _]]]]]].
+  split; [reflexivity|]. split.
+  - rewrite Ece. eapply results_verts; eauto. now apply (structured_args_lt _ _ _ _ ST).
+  - now apply structured_spec.
+Qed.
+
+(* C01 for the custom-motif generator *)
+Theorem gen_custom_C01 : forall build sizes names mis jds pis cs ce cn ci,
+  Valid sizes mis jds -> PisOk jds pis -> BuildClosed build ->
+  NamesOk build names (fst (plan_custom sizes mis jds pis)) ->
+  gen_custom build sizes names mis jds pis = Ok (cs, (ce, cn, ci)) ->
+  Spec_C01 sizes mis jds (map flat_call cs) jds (endpoints ce).
+Proof.
+  intros build sizes names mis jds pis cs ce cn ci V HP BC NO H.
+  destruct (gen_custom_inv _ _ _ _ _ _ _ _ H) as [-> [_ E]].
+  destruct (plan_custom_structured sizes mis jds pis V HP) as [_ ST].
+  destruct (emit_custom_blocks _ _ _ _ _ _ _ E NO) as [_ [_ [results [blks [R [Ece _]]]]]].
+  split; [reflexivity|]. split.
+  - rewrite Ece. eapply results_verts; eauto. now apply (structured_args_lt _ _ _ _ ST).
+  - now apply structured_spec.
+Qed.
+
+(* the calls part needs neither callbacks nor names: it holds for the plan itself *)
+Theorem plan_fast_C01 : forall sizes jds pis,
+  Valid sizes (singleton_mis (ncols jds)) jds -> PisOk jds pis ->
+  snd (plan_fast sizes jds pis) = None /\
+  Spec_calls sizes (singleton_mis (ncols jds)) jds (map flat_call (fst (plan_fast sizes jds pis))).
+Proof.
+  intros sizes jds pis V HP. destruct (plan_fast_structured sizes jds pis V HP) as [E ST].
+  split; [exact E|now apply structured_spec].
+Qed.
+
+Theorem plan_custom_C01 : forall sizes mis jds pis,
+  Valid sizes mis jds -> PisOk jds pis ->
+  snd (plan_custom sizes mis jds pis) = None /\
+  Spec_calls sizes mis jds (map flat_call (fst (plan_custom sizes mis jds pis))).
+Proof.
+  intros sizes mis jds pis V HP. destruct (plan_custom_structured sizes mis jds pis V HP) as [E ST].
+  split; [exact E|now apply structured_spec].
+Qed.
+
+(* C02: for ALL inputs (no handshake needed) the columns of a successful run are well formed *)
+Theorem gen_fast_C02 : forall build sizes names jds pis cs ce cn ci,
+  gen_fast build sizes (map (hd 0) names) jds pis = Ok (cs, (ce, cn, ci)) ->
+  exists results, Results build cs results /\
+    ce = concat (map (fun r => edges_of (snd r)) results) /\
+    Spec_C02 false names results ce cn ci.
+Proof.
+  intros build sizes names jds pis cs ce cn ci H.
+  destruct (gen_fast_inv _ _ _ _ _ _ _ H) as [_ [_ E]].
+  destruct (emit_fast_blocks _ _ _ _ _ _ _ E) as [L1 [L2 [results [blks [R [Ece [Z [F D]]]]]]]].
+  exists results. split; [exact R|]. split; [exact Ece|]. eapply blocks_spec; eauto.
+Qed.
+
+Theorem gen_custom_C02 : forall build sizes names mis jds pis cs ce cn ci,
+  gen_custom build sizes names mis jds pis = Ok (cs, (ce, cn, ci)) ->
+  NamesOk build names cs ->
+  exists results, Results build cs results /\
+    ce = concat (map (fun r => edges_of (snd r)) results) /\
+    Spec_C02 true names results ce cn ci.
+Proof.
+  intros build sizes names mis jds pis cs ce cn ci H NO.
+  destruct (gen_custom_inv _ _ _ _ _ _ _ _ H) as [_ [_ E]].
+  destruct (emit_custom_blocks _ _ _ _ _ _ _ E NO) as [L1 [L2 [results [blks [R [Ece [Z [F D]]]]]]]].
+  exists results. split; [exact R|]. split; [exact Ece|]. eapply blocks_spec; eauto.
+Qed.
+
+(* motif ids are 0,1,2,... in call order: the strongest form for the model *)
+Theorem gen_ids_sequential : forall build names cs id ce cn ci,
+  (emit_custom build names id cs = Ok (ce, cn, ci) /\ NamesOk build names cs) \/
+  (exists nms, names = map (fun x => [x]) nms /\ emit_fast build nms id cs = Ok (ce, cn, ci)) ->
+  exists blks, zip3 ce cn ci = concat blks /\ length blks = length cs /\
+    forall d x, In x (nth d blks []) -> r_id x = id + d.
+Proof.
+  intros build names cs id ce cn ci [[E NO]|[nms [-> E]]].
+  - destruct (emit_custom_blocks _ _ _ _ _ _ _ E NO) as [_ [_ [results [blks [R [_ [Z [F D]]]]]]]].
+    exists blks. split; [exact Z|]. split; [|exact D].
+    rewrite <- (Forall2_len _ _ _ _ _ F). symmetry. apply (Forall2_len _ _ _ _ _ R).
+  - rewrite <- (names_wrap nms) in E.
+    destruct (emit_fast_blocks _ _ _ _ _ _ _ E) as [_ [_ [results [blks [R [_ [Z [F D]]]]]]]].
+    exists blks. split; [exact Z|]. split; [|exact D].
+    rewrite <- (Forall2_len _ _ _ _ _ F). symmetry. apply (Forall2_len _ _ _ _ _ R).
+Qed.
+
+(* no exception of the generator's own under the hypotheses: only callbacks / missing names can fail *)
+Lemma emit_fast_total : forall build nms cs id,
+  (forall c, In c cs -> (exists es, build (fst c) (concat (snd c)) = Ok (Edges es)) /\ fst c < length nms) ->
+  exists cols, emit_fast build nms id cs = Ok cols.
+Proof.
+  intros build nms cs. induction cs as [|[j segs] cs IH]; intros id H; [now eexists|].
+  destruct (H (j, segs) (or_introl eq_refl)) as [[es Eb] Hj]. cbn [fst snd] in *.
+  destruct (IH (S id)) as [[[ce cn] ci] E]; [intros c Hc; apply H; now right|].
+  cbn [emit_fast]. rewrite Eb, (nth_error_nth' nms 0 Hj), E. now eexists.
+Qed.
+
+Lemma emit_custom_total : forall build names cs id,
+  (forall c, In c cs -> (exists sh, build (fst c) (concat (snd c)) = Ok sh) /\ fst c < length names) ->
+  exists cols, emit_custom build names id cs = Ok cols.
+Proof.
+  intros build names cs. induction cs as [|[j segs] cs IH]; intros id H; [now eexists|].
+  destruct (H (j, segs) (or_introl eq_refl)) as [[sh Eb] Hj]. cbn [fst snd] in *.
+  destruct (IH (S id)) as [[[ce cn] ci] E]; [intros c Hc; apply H; now right|].
+  cbn [emit_custom]. rewrite Eb, (nth_error_nth' names [] Hj), E. destruct sh; now eexists.
+Qed.
+
+Theorem gen_fast_total : forall build sizes nms jds pis,
+  Valid sizes (singleton_mis (ncols jds)) jds -> PisOk jds pis ->
+  (forall c, In c (fst (plan_fast sizes jds pis)) ->
+     (exists es, build (fst c) (concat (snd c)) = Ok (Edges es)) /\ fst c < length nms) ->
+  exists out, gen_fast build sizes nms jds pis = Ok out.
+Proof.
+  intros build sizes nms jds pis V HP H.
+  destruct (plan_fast_structured sizes jds pis V HP) as [En _].
+  unfold gen_fast. destruct (plan_fast sizes jds pis) as [cs e]. cbn [fst snd] in *. subst e.
+  destruct (emit_fast_total build nms cs 0 H) as [cols E]. rewrite E. now eexists.
+Qed.
+
+Theorem gen_custom_total : forall build sizes names mis jds pis,
+  Valid sizes mis jds -> PisOk jds pis ->
+  (forall c, In c (fst (plan_custom sizes mis jds pis)) ->
+     (exists sh, build (fst c) (concat (snd c)) = Ok sh) /\ fst c < length names) ->
+  exists out, gen_custom build sizes names mis jds pis = Ok out.
+Proof.
+  intros build sizes names mis jds pis V HP H.
+  destruct (plan_custom_structured sizes mis jds pis V HP) as [En _].
+  unfold gen_custom. destruct (plan_custom sizes mis jds pis) as [cs e]. cbn [fst snd] in *. subst e.
+  destruct (emit_custom_total build names cs 0 H) as [cols E]. rewrite E. now eexists.
+Qed.
+
+(* ------------------------------------------------------------------ the model passes the verified checkers *)
+Theorem gen_fast_passes_c01 : forall build sizes nms jds pis cs ce cn ci,
+  Valid sizes (singleton_mis (ncols jds)) jds -> PisOk jds pis -> BuildClosed build ->
+  gen_fast build sizes nms jds pis = Ok (cs, (ce, cn, ci)) ->
+  c01_okb sizes (singleton_mis (ncols jds)) jds (map flat_call cs) jds (endpoints ce) = true.
+Proof. intros. apply c01_okb_spec. eapply gen_fast_C01; eauto. Qed.
+
+Theorem gen_custom_passes_c01 : forall build sizes names mis jds pis cs ce cn ci,
+  Valid sizes mis jds -> PisOk jds pis -> BuildClosed build ->
+  NamesOk build names (fst (plan_custom sizes mis jds pis)) ->
+  gen_custom build sizes names mis jds pis = Ok (cs, (ce, cn, ci)) ->
+  c01_okb sizes mis jds (map flat_call cs) jds (endpoints ce) = true.
+Proof. intros. apply c01_okb_spec. eapply gen_custom_C01; eauto. Qed.
+
+Theorem gen_main_dispatch : forall build sizes names mis jds pis,
+  gen_main 0 build sizes names mis jds pis = gen_fast build sizes (map (hd 0) names) jds pis /\
+  gen_main 1 build sizes names mis jds pis = gen_fast build sizes (map (hd 0) names) jds pis /\
+  gen_main 2 build sizes names mis jds pis = gen_custom build sizes names mis jds pis /\
+  (forall tag, 2 < tag -> gen_main tag build sizes names mis jds pis = Err E_TYPE).
+Proof.
+  intros. repeat split. intros tag H. destruct tag as [|[|[|t]]]; try lia. reflexivity.
+Qed.
+
+(* identity shuffles are admissible schedules (non-vacuity of PisOk) *)
+Lemma PisOk_identity : forall jds, PisOk jds (map (fun s => seq 0 (length s)) (all_stubs jds)).
+Proof.
+  intros jds k Hk. unfold is_perm.
+  rewrite (nth_map_in _ _ _ _ _ [] []) by now rewrite all_stubs_length.
+  rewrite all_stubs_nth by exact Hk. apply Permutation_refl.
+Qed.
